@@ -142,6 +142,8 @@ class Interp:
                 if isinstance(v, tuple):
                     return v
                 return ('path', v) if 'Path' in f else v
+            if last in self.pp.fns and '::' not in f and '(String,' in (self.pp.fns[last]['sig'].get('rets') or '').replace(' ', ''):
+                return ('expansion',)                        # Option<(text, ..)> of the macro resolver
             if last in self.pp.fns and '::' not in f:
                 fn = self.pp.fns[last]
                 params = [sx.pat_idents(p['pat'])[0] for p in fn['sig']['params'] if p.get('k') == 'typed']
@@ -184,9 +186,12 @@ class Interp:
             src = e['c']['e']
             inner = src['e'] if src.get('k') == 'try' else src
             ids = sx.pat_idents(e['c']['pat'])
-            if sx.is_call(inner) and inner['f']['p'] in self.pp.fns and ids and ids[0]:
-                rets = (self.pp.fns[inner['f']['p']]['sig'].get('rets') or '').replace(' ', '')
-                if '(String,' in rets:
+            try:
+                scr = self.ev(src, env)
+            except Undecided:
+                scr = None
+            if scr == ('expansion',) and ids and ids[0]:
+                if True:
                     env2 = dict(env)
                     env2[ids[0]] = self.raw
                     for x in ids[1:]:
@@ -194,7 +199,22 @@ class Interp:
                             env2[x] = None
                     return self.block(e['t'], env2)
             raise Undecided('`if let` over %s' % sq(inner)[:40])
+        if k == 'try':
+            return self.ev(e['e'], env)
         if k == 'match':
+            scr = self.ev(e['e'], env)
+            if scr == ('expansion',):
+                for arm in e['arms']:
+                    pt = arm['pat']
+                    if pt.get('k') == 'ts' and pt['p'].split('::')[-1] == 'Some':
+                        ids = sx.pat_idents(pt)
+                        if ids and ids[0]:
+                            env2 = dict(env)
+                            env2[ids[0]] = self.raw
+                            for x in ids[1:]:
+                                if x:
+                                    env2[x] = None
+                            return self.ev(arm['body'], env2)
             raise Undecided('match inside the derivation')
         raise Undecided('expression kind %s' % k)
 
